@@ -312,6 +312,20 @@ func (a *Analyzer) readsOf(f *ssa.Function) map[string]bool {
 }
 
 func (a *Analyzer) atomReads(at *Atom) map[string]bool {
+	// memoised per analyser (one analyser per goroutine); callers only read the result
+	if a.atomReadsMemo == nil {
+		a.atomReadsMemo = map[string]map[string]bool{}
+	}
+	k := at.Key()
+	if r, ok := a.atomReadsMemo[k]; ok {
+		return r
+	}
+	r := a.atomReadsUncached(at)
+	a.atomReadsMemo[k] = r
+	return r
+}
+
+func (a *Analyzer) atomReadsUncached(at *Atom) map[string]bool {
 	out := map[string]bool{}
 	if at.Pred == "fresh" && len(at.Args) == 2 {
 		// a statement about the moment of insertion: later updates of the set do not invalidate it
